@@ -14,9 +14,10 @@ for d in sorted(det):
     files = sorted(set(re.findall(r"^\+\+\+ b/(\S+)", patch, re.M)))
     rows.append("| %s | %s | `./check %s` | %s | %s | %s |" % (
         d, ", ".join("`%s`" % f for f in files), v.get("property", d[:3]),
-        "yes" if v.get("detected") else "**no**", "yes" if v.get("with_failing_input") else "no",
+        "n/a" if v.get("obsolete") else ("yes" if v.get("detected") else "**no**"),
+        "n/a" if v.get("obsolete") else ("yes" if v.get("with_failing_input") else "no"),
         (v.get("what_the_check_reported") or "").replace("|", "/")))
-n = len(det)
+n = sum(1 for v in det.values() if not v.get("obsolete"))
 k = sum(1 for v in det.values() if v.get("detected"))
 w = sum(1 for v in det.values() if v.get("with_failing_input"))
 rows.append("")
